@@ -1,7 +1,7 @@
 #!/bin/bash
 # Runs every hand-written mutant of every property (tools/sens.py) and writes sensitivity.md
 cd "$(dirname "$0")/.." || exit 2
-out=sensitivity.md
+out=${SENS_OUT:-sensitivity.md}
 {
 echo "# Sensitivity record: hand-written mutants (pv/mutants/*.json)"
 echo
